@@ -18,10 +18,10 @@ func (r *rng) intn(n int) int {
 	}
 	return int(r.u64() % uint64(n))
 }
-func (r *rng) bool() bool   { return r.u64()&1 == 1 }
-func (r *rng) byte() byte   { return byte(r.u64()) }
-func (r *rng) u16() uint16  { return uint16(r.u64()) }
-func (r *rng) u32() uint32  { return uint32(r.u64()) }
+func (r *rng) bool() bool  { return r.u64()&1 == 1 }
+func (r *rng) byte() byte  { return byte(r.u64()) }
+func (r *rng) u16() uint16 { return uint16(r.u64()) }
+func (r *rng) u32() uint32 { return uint32(r.u64()) }
 func (r *rng) bytes(n int) []byte {
 	b := make([]byte, n)
 	for i := range b {
